@@ -38,10 +38,11 @@ type Cfg struct {
 	Late        int    // >0: the consumer of the first output sleeps that long (virtual ns) before its receive number LateAt (from 0)
 	LateAt      int
 	Dup         bool // Join: the (single) input channel is passed twice
-	Interval    int  // Throttling: interval in ticks (0 is allowed and means "no pacing"); default 4
+	Interval    int  // Throttling: interval in ticks, default 4; Emit: frequency in ticks, default 3; -1 stands for 0 ("no pacing")
 	FailFrom    int  // Emit: >0: the function fails on every index >= FailFrom, for ever
 	Idle        bool // the producer goes idle after its last element instead of closing the input
 	Any         bool // the element type is `any` and every other element is a nil interface value
+	Background  bool // the stage runs under context.Background() (never cancelled, Done() is nil)
 }
 
 // Aff is an affine map x -> A*x+B; composition is a non-commutative monoid with identity {1,0}.
@@ -56,12 +57,23 @@ var errFail = errors.New("fail")
 func Fail(x int) error {
 	switch {
 	case x%2 == 0:
-		return fmt.Errorf("fail%d: %w", x, context.Canceled)
+		return TrailErr{Msg: fmt.Sprintf("fail%d", x), Trail: []int{x}, Cause: context.Canceled}
 	case x%3 == 0:
-		return fmt.Errorf("fail%d: %w", x, context.DeadlineExceeded)
+		return TrailErr{Msg: fmt.Sprintf("fail%d", x), Trail: []int{x}, Cause: context.DeadlineExceeded}
 	}
 	return fmt.Errorf("fail%d", x)
 }
+
+// TrailErr is an error VALUE (not a pointer) that holds a slice: two of them cannot be compared with == (it panics),
+// and it wraps the context error of some other context.
+type TrailErr struct {
+	Msg   string
+	Trail []int
+	Cause error
+}
+
+func (e TrailErr) Error() string { return e.Msg + ": " + e.Cause.Error() }
+func (e TrailErr) Unwrap() error { return e.Cause }
 
 // consume starts the consumer of one output; lateAt = [ns, k]: it sleeps ns (virtual) before its receive number k.
 func consume[T any](name string, ch <-chan T, stop int, after int, cancel func(), lateAt ...int) {
@@ -113,6 +125,9 @@ func Scenario(c Cfg) {
 		return
 	}
 	ctx, cancel := context.WithCancel(context.Background())
+	if c.Background {
+		ctx, cancel = context.Background(), func() {}
+	}
 	var closed env.Shared
 	mkin := func(tag string, from, n int) <-chan int {
 		in := make(chan int, c.Cap)
@@ -219,6 +234,10 @@ func Scenario(c Cfg) {
 		consume("l", l, c.Stop, 0, cancel, c.Late, c.LateAt)
 		consume("r", r, c.Stop2, 0, cancel)
 	case "foreach":
+		if c.Mode == "lift" || c.Mode == "try" { // a visitor that fails on the masked elements: ForEach has no error output, the visit goes on
+			consume("done", pipe.ForEach(ctx, mkin("sent", 1, c.K), lift()), -1, 0, cancel)
+			break
+		}
 		consume("done", pipe.ForEach(ctx, mkin("sent", 1, c.K), pipe.Pure(func(x int) int { env.Log("call", x); return x })), -1, 0, cancel)
 	case "void":
 		consume("done", pipe.Void(ctx, mkin("sent", 1, c.K)), -1, 0, cancel)
@@ -294,7 +313,14 @@ func Scenario(c Cfg) {
 		if c.Stop != 0 {
 			go func() {
 				n := 0
-				for x := range out {
+				for {
+					if c.Late > 0 && n == c.LateAt {
+						time.Sleep(time.Duration(c.Late))
+					}
+					x, ok := <-out
+					if !ok {
+						break
+					}
 					env.Log("got", x)
 					n++
 					if c.Stop > 0 && n == c.Stop {
@@ -319,7 +345,11 @@ func Scenario(c Cfg) {
 			return pipe.Lift(f)
 		}()))
 	case "emit":
-		out2(pipe.Emit(ctx, c.Cap, 3*time.Nanosecond, lift()))
+		fq := 3
+		if c.Interval != 0 { // Interval -1: a frequency of zero ("no pacing")
+			fq = max(c.Interval, 0)
+		}
+		out2(pipe.Emit(ctx, c.Cap, time.Duration(fq)*time.Nanosecond, lift()))
 	case "throttle":
 		iv := 4
 		if c.Interval != 0 {
